@@ -2,6 +2,7 @@
 from __future__ import annotations
 
 import json
+import re
 import os
 
 from hypothesis import strategies as st
@@ -25,7 +26,7 @@ RULE = ('Generated budgets (1-3 sources with independent settings + a plain prob
         'ranking, a transform or a supplemental query.')
 ASSUMPTIONS = ['sub-check (b) uses rules that depend only on description and amount - the only things `explain` lets the user state',
                'probe descriptions carry a unique token so that explain reaches its description path rather than a merchant/transaction search']
-REQUIRED_CLASSES = ['explain_text', 'explain_description_text', 'explain_merchant', 'explain_description_matched', 'explain_description_unknown', 'discover_listing', 'tagonly_predecessor', 'variable_or_let',
+REQUIRED_CLASSES = ['explain_text', 'explain_description_text', 'discover_text', 'explain_merchant', 'explain_description_matched', 'explain_description_unknown', 'discover_listing', 'tagonly_predecessor', 'variable_or_let',
                     'most_specific', 'transform', 'supplemental_query', 'csv_rules']
 
 UNIQ = ['ZZQX', 'QQPROBE', 'XYZZY7']
@@ -215,6 +216,17 @@ def check(c, stats: Stats):
             got = {it['raw_description']: [it['count'], it['total_spend']] for it in items}
             if set(got) != set(exp) or any(got[k][0] != exp[k][0] or abs(got[k][1] - exp[k][1]) > 0.00501 for k in exp):
                 raise Violation(f'discover lists {got}\nbut the transactions `up` leaves Unknown are {exp}{ctx}', c, 'discover-listing')
+            rt = cli.run(['discover', '--limit', '0', bd.config], cwd=bd.root)
+            mt = re.search(r'Total unknown: (\d+) transactions', rt.out)
+            if 'Traceback' in rt.out + rt.err or rt.code != 0:
+                raise Violation(f'`tally discover` (text) failed where the JSON format succeeds (exit {rt.code}):\n{(rt.out + rt.err)[-800:]}{ctx}', c, 'discover-text-crash')
+            if mt and int(mt.group(1)) != len(unknown):
+                raise Violation(f'`tally discover` (text) counts {mt.group(1)} unknown transactions, `up` leaves {len(unknown)} Unknown{ctx}', c, 'discover-text')
+            counts = sorted(int(x) for x in re.findall(r'^\s+Count: (\d+) \|', rt.out, re.M))
+            if mt and counts and counts != sorted(v[0] for v in exp.values()):
+                raise Violation(f'`tally discover` (text) lists per-description counts {counts}, expected {sorted(v[0] for v in exp.values())}{ctx}', c, 'discover-text')
+            if mt:
+                classes.add('discover_text')
             classes.add('discover_listing')
         elif 'No unknown transactions' not in r.out:
             try:
